@@ -20,6 +20,12 @@ func MapKeys[M ~map[K]V, K comparable, V any](m M, site string) []K {
 		keys = append(keys, k)
 	}
 	s := cur.Load()
+	if s != nil && s.ParkAtMapRange && s.Mode == ModePark {
+		// every map range in repository code is also a scheduling point: callers
+		// can be interleaved in the middle of a canonicalisation, not only between
+		// two of them
+		s.Park("maprange", "")
+	}
 	if s == nil || !s.MapOrderOn || len(keys) < 2 {
 		return keys
 	}
